@@ -61,8 +61,8 @@ fn transcript(spec: &SessionSpec, payload_classes: &[u8], fill: u64) -> Result<T
     }
     let oneway = spec.pattern().is_oneway();
     // stateful transport incl. a synchronised rekey
-    let mut ti = hi.into_transport_mode().map_err(|x| Fail::new(e(&x)))?;
-    let mut tr = hr.into_transport_mode().map_err(|x| Fail::new(e(&x)))?;
+    let mut ti = hi.into_transport_mode().map_err(|x| Fail::setup(e(&x)))?;
+    let mut tr = hr.into_transport_mode().map_err(|x| Fail::setup(e(&x)))?;
     for round in 0..4 {
         for i_sends in [true, false] {
             if oneway && !i_sends {
@@ -91,14 +91,14 @@ fn transcript(spec: &SessionSpec, payload_classes: &[u8], fill: u64) -> Result<T
     let (mut hi, mut hr) = (pair.i, pair.r);
     for idx in 0..spec.n_msgs() {
         let (w, r) = if idx % 2 == 0 { (&mut hi, &mut hr) } else { (&mut hr, &mut hi) };
-        let m = hs_write(w, b"", 65535).map_err(|x| Fail::new(e(&x)))?;
-        hs_read(r, &m, 65535).map_err(|x| Fail::new(e(&x)))?;
+        let m = hs_write(w, b"", 65535).map_err(|x| Fail::setup(e(&x)))?;
+        hs_read(r, &m, 65535).map_err(|x| Fail::setup(e(&x)))?;
     }
-    let si = hi.into_stateless_transport_mode().map_err(|x| Fail::new(e(&x)))?;
-    let sr = hr.into_stateless_transport_mode().map_err(|x| Fail::new(e(&x)))?;
+    let si = hi.into_stateless_transport_mode().map_err(|x| Fail::setup(e(&x)))?;
+    let sr = hr.into_stateless_transport_mode().map_err(|x| Fail::setup(e(&x)))?;
     for n in [0u64, 0x1_0000_0001, u64::MAX - 1] {
         let payload = spec.payload(70, 21);
-        let m = sl_write(&si, n, &payload, 40).map_err(|x| Fail::new(e(&x)))?;
+        let m = sl_write(&si, n, &payload, 40).map_err(|x| Fail::setup(e(&x)))?;
         let p = sl_read(&sr, n, &m, 40).map_err(|x| Fail::new(format!("{name}: stateless interop at nonce {n}: {}", e(&x))))?;
         if p != payload {
             return Err(Fail::new(format!("{name}: stateless payload")));
@@ -115,7 +115,7 @@ fn oracle(c: &Case, acc: &mut Acc) -> CaseResult {
             let mut base_spec = spec.clone();
             base_spec.backend_i = Backend::Default;
             base_spec.backend_r = Backend::Default;
-            let base = transcript(&base_spec, payload_classes, *fill)?;
+            let base = transcript(&base_spec, payload_classes, *fill).map_err(|f| Fail::setup(format!("default/default reference session failed: {}", f.msg)))?;
             for bi in BACKENDS {
                 for br in BACKENDS {
                     if bi == Backend::Default && br == Backend::Default {
